@@ -397,7 +397,8 @@ class RadiDict:
                 else:
                     c0 = route[i]
                     for ic, c in enumerate(idx):
-                        if c == c0:
+                        # the TOKEN edge is a wildcard, never literal text of the path
+                        if c == c0 and c != TOKEN:
                             kidx = ic; break  # found!
 
                 if kidx is None:  # not found
